@@ -421,7 +421,7 @@ theorem proc2T_spec {bpb size : Nat} {enc dec : Sl} {stride : Nat} {r : PRange}
 
 /-- the unit sizes a `ProcessBlocksFn` shape is instantiated with -/
 def BlkFn.Shape (p : BlkFn) (bpb : Nat) : Prop :=
-  0 < p.bx ∧ p.bx < 256 ∧ 0 < p.by_ ∧ p.by_ < 256 ∧ 0 < bpb ∧ (p = .eight → bpb = 1)
+  0 < p.bx ∧ p.bx < 256 ∧ 0 < p.by_ ∧ p.by_ < 256 ∧ 0 < bpb ∧ (p = .eight → bpb = 1) ∧ bpb < 256
 
 /-- **every `ProcessBlocksFn`** under the contract `BlkPre` of its arguments -/
 theorem BlkFn.runT_spec {p : BlkFn} {bpb size : Nat} {enc dec : Sl} {stride : Nat} {r : PRange} (al : Sl → Bool)
@@ -432,8 +432,293 @@ theorem BlkFn.runT_spec {p : BlkFn} {bpb size : Nat} {enc dec : Sl} {stride : Na
   | four => exact proc4T_spec al h
   | two => exact proc2T_spec h
   | eight =>
-    have : bpb = 1 := hp.2.2.2.2.2 rfl
+    have : bpb = 1 := hp.2.2.2.2.2.1 rfl
     subst this
     exact generalT_spec h
+
+/-! ### `ChannelConversionBuffer::process_blocks` -/
+
+/-- where `process_blocks` may write: the conversion buffer, or the first `rowBytes` bytes of a row of `out` -/
+def ConvOK (out : Sl) (pitch rows rowBytes : Nat) (s : Sl) : Prop := s.buf = .tmp ∨ RowsOK out pitch rows rowBytes s
+
+theorem convBlockRowsT_spec {native : Color} {target : Unc.Channels} (hp : native.psz = 1 ∨ native.psz = 2 ∨ native.psz = 4)
+    {height rowPitch cw : Nat} {buf out : Sl} (hh : 0 < height) (hhl : height < 256)
+    (hbl : buf.len = cw * native.bpp * height)
+    (hblt : buf.len < USIZE) (hol : (height - 1) * rowPitch + cw * (Color.mk target native.psz).bpp ≤ out.len)
+    (holt : out.len < USIZE) :
+    ∃ e, convBlockRowsT native target height (cw * native.bpp) rowPitch cw (Color.mk target native.psz).bpp buf out = some e ∧
+      Quiet (RowsOK out rowPitch height (cw * (Color.mk target native.psz).bpp)) e := by
+  unfold convBlockRowsT
+  apply forT_quiet
+  intro y hy
+  have hy : y < height := List.mem_range.mp hy
+  generalize hO : (Color.mk target native.psz).bpp = O at hol ⊢
+  generalize hS : cw * native.bpp = S at hbl
+  have p1 : (y + 1) * S ≤ height * S := Nat.mul_le_mul_right _ (by omega)
+  rw [Nat.succ_mul] at p1
+  rw [Nat.mul_comm S height] at hbl
+  have p2 : y * rowPitch ≤ (height - 1) * rowPitch := Nat.mul_le_mul_right _ (by omega)
+  have hlen : y * S + S - y * S = S := by omega
+  have hUS : 256 < USIZE := by decide
+  rw [ckU_of_lt (by omega), bind_some', ckU_of_lt (by omega), bind_some', Nat.succ_mul, ckU_of_lt (by omega), bind_some',
+    Sl.range_of ⟨by omega, by omega⟩, bind_some', ckU_of_lt (by omega), bind_some', ckU_of_lt (by omega), bind_some',
+    ckU_of_lt (by omega), bind_some', Sl.range_of ⟨by omega, by omega⟩, bind_some']
+  simp only [hlen, Nat.add_sub_cancel_left]
+  rw [convertChannelsForT_spec hp (n := cw) (by simp only [hS]) (by simp only [hO])]
+  exact ⟨_, rfl, Quiet.one ⟨rfl, y, hy, by simp only; omega, by simp only; omega⟩⟩
+
+theorem divCeil_le_self {w b : Nat} (hb : 0 < b) : divCeil w b ≤ w := by
+  have h := (divCeil_spec w b hb).2
+  by_cases h0 : w = 0
+  · subst h0; rw [Stream.divCeil_zero]; omega
+  · simp only [h0, if_false, Nat.add_zero] at h
+    have : (divCeil w b - 1) * 1 ≤ (divCeil w b - 1) * b := Nat.mul_le_mul_left _ hb
+    omega
+
+theorem min_satAdd32 {a b w : Nat} (hw : w < U32B) : min (satAdd32 a b) w = min (a + b) w := by
+  unfold satAdd32
+  by_cases h : a + b < U32B
+  · rw [if_pos h]
+  · rw [if_neg h]; omega
+
+/-- one chunk of the main loop of `process_blocks` (with the repaired, saturating addition) -/
+theorem convBlockChunkT_spec {native : Color} {target : Unc.Channels} {p : BlkFn} {bpb : Nat} (al : Sl → Bool)
+    (hsh : p.Shape bpb) (hp : native.psz = 1 ∨ native.psz = 2 ∨ native.psz = 4) {height pref width rowPitch : Nat}
+    {r : PRange} {enc out : Sl} (hr : r.rs < r.re) (hre : r.re ≤ p.by_) (hh : height = r.re - r.rs)
+    (hpref : 0 < pref) (hdvd : p.bx ∣ pref) (hfit : pref * (native.bpp * height) ≤ BUFFER_BYTES) (hw : width < U32B)
+    (hel : enc.len = divCeil width p.bx * bpb)
+    (hol : (height - 1) * rowPitch + width * (Color.mk target native.psz).bpp ≤ out.len) (holt : out.len < USIZE)
+    {cs : Nat} (hcs : cs ∈ Addr.stepStarts width pref) :
+    ∃ e, convBlockChunkT (fun a b => some (satAdd32 a b)) native target p bpb al bpb p.bx native.bpp
+        (Color.mk target native.psz).bpp height pref width rowPitch r enc out cs = some e ∧
+      Quiet (ConvOK out rowPitch height (width * (Color.mk target native.psz).bpp)) e := by
+  obtain ⟨hbx, hbxl, hby, hbyl, hbpb, _, hbpbl⟩ := hsh
+  obtain ⟨k, hk, rfl⟩ := (Addr.mem_stepStarts hpref).1 hcs
+  obtain ⟨j, rfl⟩ := hdvd
+  have hNb := Color.bpp_bounds native hp
+  have hOb := Color.bpp_bounds ⟨target, native.psz⟩ hp
+  generalize hO : (Color.mk target native.psz).bpp = O at hol hOb ⊢
+  generalize hN : native.bpp = N at hNb hfit ⊢
+  generalize hcs' : k * (p.bx * j) = cs at hk
+  have hcsm : cs = (k * j) * p.bx := by rw [← hcs']; ac_rfl
+  have hbo : cs / p.bx = k * j := by rw [hcsm]; exact Nat.mul_div_cancel _ hbx
+  generalize hce : min (cs + p.bx * j) width = ce
+  have hce' : cs < ce ∧ ce ≤ width ∧ ce - cs ≤ p.bx * j := by subst hce; omega
+  have hbc : k * j + divCeil (ce - cs) p.bx ≤ divCeil width p.bx := by
+    have : divCeil (ce - cs + (k * j) * p.bx) p.bx = divCeil (ce - cs) p.bx + k * j := Addr.divCeil_add_mul _ _ _ hbx
+    have h2 : ce - cs + (k * j) * p.bx = ce := by omega
+    rw [h2] at this
+    have := Stream.divCeil_mono hbx hce'.2.1
+    omega
+  have hdcw : divCeil width p.bx ≤ width := divCeil_le_self hbx
+  unfold U32B at hw
+  have hUS : (2 : Nat) ^ 44 < USIZE := by decide
+  have hB : BUFFER_BYTES < 2 ^ 20 := by decide
+  simp only [Nat.reducePow] at hUS hB
+  have p0 : divCeil width p.bx * bpb ≤ width * 256 :=
+    Nat.mul_le_mul hdcw (by omega)
+  have p1 : (k * j) * bpb ≤ (k * j + divCeil (ce - cs) p.bx) * bpb := Nat.mul_le_mul_right _ (by omega)
+  have p2 : (k * j + divCeil (ce - cs) p.bx) * bpb ≤ divCeil width p.bx * bpb := Nat.mul_le_mul_right _ hbc
+  have p3 : cs * O ≤ ce * O := Nat.mul_le_mul_right _ (by omega)
+  have p4 : ce * O ≤ width * O := Nat.mul_le_mul_right _ hce'.2.1
+  have p4' : width * O ≤ width * 16 := Nat.mul_le_mul_left _ hOb.2
+  have p5 : (ce - cs) * (N * height) ≤ (p.bx * j) * (N * height) := Nat.mul_le_mul_right _ hce'.2.2
+  have p6 : (ce - cs) * N ≤ (ce - cs) * (N * height) :=
+    Nat.mul_le_mul_left _ (Nat.le_mul_of_pos_right _ (by omega))
+  have e5 : (ce - cs) * N * height = (ce - cs) * (N * height) := Nat.mul_assoc _ _ _
+  have s1 : (k * j + divCeil (ce - cs) p.bx) * bpb - (k * j) * bpb = divCeil (ce - cs) p.bx * bpb := by
+    rw [Nat.add_mul]; omega
+  have s2 : cs * O + (ce - cs) * O = ce * O := by rw [← Nat.add_mul]; congr 1; omega
+  unfold convBlockChunkT
+  simp only [bind_some']
+  rw [min_satAdd32 (by unfold U32B; omega), hce, subU_of_le (by omega), bind_some', div_of_ne (by omega), bind_some',
+    hbo, divCeilT_of_ne (by omega), bind_some', ckU_of_lt (by omega), bind_some', ckU_of_lt (by omega), bind_some',
+    ckU_of_lt (by omega), bind_some', Sl.range_of ⟨p1, by omega⟩, bind_some', ckU_of_lt (by omega), bind_some',
+    Sl.drop_of (by omega), bind_some', ckU_of_lt (by omega), bind_some', ckU_of_lt (by omega), bind_some',
+    Sl.upto_of (by rw [tmpBuffer_len]; omega), bind_some']
+  have pre : BlkPre p.bx p.by_ bpb N
+      ⟨enc.buf, enc.off + k * j * bpb, (k * j + divCeil (ce - cs) p.bx) * bpb - k * j * bpb⟩
+      ⟨tmpBuffer.buf, tmpBuffer.off, (ce - cs) * N * height⟩ ((ce - cs) * N) ⟨ce - cs, 0, r.rs, r.re⟩ :=
+    { bx_pos := hbx, bx_lt := hbxl, bpb_pos := hbpb, size_pos := by omega, wo_lt := hbx, w_ok := Or.inr rfl,
+      wsum_lt := by show ce - cs + 0 < U32B; unfold U32B; omega,
+      enc_len := by show _ = divCeil (ce - cs + 0) p.bx * bpb; rw [Nat.add_zero]; exact s1,
+      rows := hr, re_le := hre,
+      dec_len := by
+        show (r.re - r.rs - 1) * ((ce - cs) * N) + (ce - cs) * N ≤ (ce - cs) * N * height
+        rw [← hh, Nat.mul_comm ((ce - cs) * N) height]
+        have : height = (height - 1) + 1 := by omega
+        conv => rhs; rw [this, Nat.succ_mul]
+        exact Nat.le_refl _,
+      dec_lt := by show (ce - cs) * N * height < USIZE; omega }
+  obtain ⟨w1, hw1, q1⟩ := BlkFn.runT_spec al ⟨hbx, hbxl, hby, hbyl, hbpb, by assumption, hbpbl⟩ pre
+  rw [hw1, bind_some']
+  have := convBlockRowsT_spec (native := native) (target := target) hp (height := height) (rowPitch := rowPitch)
+    (cw := ce - cs) (buf := ⟨tmpBuffer.buf, tmpBuffer.off, (ce - cs) * N * height⟩)
+    (out := ⟨out.buf, out.off + cs * O, out.len - cs * O⟩) (by omega) (by omega) (by simp only [hN]) (by simp only; omega)
+    (by simp only [hO]; omega) (by simp only; omega)
+  rw [hN, hO] at this
+  obtain ⟨w2, hw2, q2⟩ := this
+  rw [hw2, bind_some', pure_some']
+  refine ⟨_, rfl, Quiet.append (q1.mono fun s hs => Or.inl hs.1) (q2.mono fun s hs => Or.inr ?_)⟩
+  exact hs.shift rfl rfl (by omega)
+
+/-- the chunk size: `round_down_to_multiple(buffer_width, block_width)` for `buffer_width ≥ block_width` -/
+theorem pref_facts {bufW bx : Nat} (hbx : 0 < bx) (hge : bx ≤ bufW) :
+    0 < bufW - bufW % bx ∧ bufW - bufW % bx ≤ bufW ∧ bx ∣ bufW - bufW % bx := by
+  have h1 := Nat.div_add_mod bufW bx
+  have h2 := Nat.mod_lt bufW hbx
+  have hq : 0 < bufW / bx := Nat.div_pos hge hbx
+  have e : bufW - bufW % bx = bx * (bufW / bx) := by omega
+  have : bx * 1 ≤ bx * (bufW / bx) := Nat.mul_le_mul_left _ hq
+  exact ⟨by omega, by omega, e ▸ Nat.dvd_mul_right _ _⟩
+
+/-- the main loop of `process_blocks` on `width` pixels that start at a block boundary -/
+theorem convBlocksMainT_spec {native : Color} {target : Unc.Channels} {p : BlkFn} {bpb : Nat} (al : Sl → Bool)
+    (hsh : p.Shape bpb) (hp : native.psz = 1 ∨ native.psz = 2 ∨ native.psz = 4) {height bufW width rowPitch : Nat}
+    {r : PRange} {enc out : Sl} (hr : r.rs < r.re) (hre : r.re ≤ p.by_) (hh : height = r.re - r.rs)
+    (hge : p.bx ≤ bufW) (hfit : bufW * (native.bpp * height) ≤ BUFFER_BYTES) (hw : width < U32B)
+    (hel : enc.len = divCeil width p.bx * bpb)
+    (hol : (height - 1) * rowPitch + width * (Color.mk target native.psz).bpp ≤ out.len) (holt : out.len < USIZE) :
+    ∃ e, convBlocksMainT (fun a b => some (satAdd32 a b)) native target p bpb al bpb p.bx native.bpp
+        (Color.mk target native.psz).bpp height bufW rowPitch r enc out width = some e ∧
+      Quiet (ConvOK out rowPitch height (width * (Color.mk target native.psz).bpp)) e := by
+  have hbx := hsh.1
+  obtain ⟨f1, f2, f3⟩ := pref_facts hbx hge
+  have hfit' : (bufW - bufW % p.bx) * (native.bpp * height) ≤ BUFFER_BYTES :=
+    Nat.le_trans (Nat.mul_le_mul_right _ f2) hfit
+  unfold convBlocksMainT
+  rw [modT_of_ne (by omega), bind_some', subU_of_le (Nat.mod_le _ _), bind_some', dbgP_of (by omega), bind_some']
+  apply forT_quiet
+  intro cs hcs
+  exact convBlockChunkT_spec al hsh hp hr hre hh f1 f3 hfit' hw hel hol holt hcs
+
+/-- what `for_each_block_untyped` / `for_each_block_rect_untyped` hand to `process_blocks` -/
+structure ConvPre (native : Color) (target : Unc.Channels) (p : BlkFn) (bpb : Nat) (enc out : Sl) (rowPitch : Nat)
+    (r : PRange) : Prop where
+  shape : p.Shape bpb
+  psz : native.psz = 1 ∨ native.psz = 2 ∨ native.psz = 4
+  /-- a block row of native pixels fits the conversion buffer (`debug_assert!(buffer_size.width >= block_width)`) -/
+  buf : p.bx * (native.bpp * p.by_) ≤ BUFFER_BYTES
+  wo_lt : r.wo < p.bx
+  w_ok : 0 < r.width ∨ r.wo = 0
+  wsum_lt : r.width + r.wo < U32B
+  rows : r.rs < r.re
+  re_le : r.re ≤ p.by_
+  enc_len : enc.len = divCeil (r.width + r.wo) p.bx * bpb
+  out_len : (r.re - r.rs - 1) * rowPitch + r.width * (Color.mk target native.psz).bpp ≤ out.len
+  out_lt : out.len < USIZE
+
+/-- **`ChannelConversionBuffer::process_blocks`** (as repaired by F17): no trap for any width `< 2^32` -/
+theorem convBlocksT_spec {native : Color} {target : Unc.Channels} {p : BlkFn} {bpb : Nat} {enc out : Sl} {rowPitch : Nat}
+    {r : PRange} (al : Sl → Bool) (h : ConvPre native target p bpb enc out rowPitch r) :
+    ∃ e, convBlocksT native target p bpb al bpb p.bx enc out rowPitch r = some e ∧
+      Quiet (ConvOK out rowPitch (r.re - r.rs) (r.width * (Color.mk target native.psz).bpp)) e := by
+  obtain ⟨hbx, hbxl, hby, hbyl, hbpb, h8, hbpbl⟩ := h.shape
+  have hrows := h.rows
+  have hre := h.re_le
+  have hNb := Color.bpp_bounds native h.psz
+  have hOb := Color.bpp_bounds ⟨target, native.psz⟩ h.psz
+  unfold convBlocksT convBlocksWithT
+  by_cases hc : native.ch = target
+  · rw [if_pos hc]
+    have hcol : (Color.mk target native.psz) = native := by cases native; simp only at hc; subst hc; rfl
+    have hol := h.out_len
+    rw [hcol] at hol ⊢
+    have pre : BlkPre p.bx p.by_ bpb native.bpp enc out rowPitch r :=
+      { bx_pos := hbx, bx_lt := hbxl, bpb_pos := hbpb, size_pos := by omega, wo_lt := h.wo_lt, w_ok := h.w_ok,
+        wsum_lt := h.wsum_lt, enc_len := h.enc_len, rows := h.rows, re_le := h.re_le, dec_len := hol, dec_lt := h.out_lt }
+    obtain ⟨e, he, q⟩ := BlkFn.runT_spec al h.shape pre
+    exact ⟨e, he, q.mono fun s hs => Or.inr hs⟩
+  · rw [if_neg hc]
+    generalize hH : r.re - r.rs = H at *
+    have hHb : 0 < H ∧ H ≤ p.by_ := by omega
+    have hm1 : native.bpp * H ≤ native.bpp * p.by_ := Nat.mul_le_mul_left _ hHb.2
+    have hm2 : native.bpp * H ≤ 16 * 255 := Nat.mul_le_mul hNb.2 (by omega)
+    have hm0 : 0 < native.bpp * H := Nat.mul_pos (by omega) hHb.1
+    have hB : BUFFER_BYTES < 2 ^ 20 := by decide
+    have hUS : (2 : Nat) ^ 44 < USIZE := by decide
+    have hU32 : (2 : Nat) ^ 20 < U32B := by decide
+    simp only [Nat.reducePow] at hB hUS hU32
+    generalize hbw : BUFFER_BYTES / (native.bpp * H) = bufW
+    have hbwle : bufW ≤ BUFFER_BYTES := by rw [← hbw]; exact Nat.div_le_self _ _
+    have hbwmod : bufW % U32B = bufW := Nat.mod_eq_of_lt (by omega)
+    have hge : p.bx ≤ bufW := by
+      rw [← hbw, Nat.le_div_iff_mul_le hm0]
+      exact Nat.le_trans (Nat.mul_le_mul_left _ hm1) h.buf
+    have hfit : bufW * (native.bpp * H) ≤ BUFFER_BYTES := by rw [← hbw]; exact Nat.div_mul_le_self _ _
+    rw [subU_of_le (by omega), bind_some']
+    simp only [hH]
+    rw [dbgP_of hHb.1, bind_some', Color.bppT_eq native h.psz, bind_some',
+      ckU_of_lt (by omega), bind_some', div_of_ne (by omega), bind_some', hbw]
+    simp only [hbwmod]
+    rw [dbgP_of hge, bind_some', Color.bppT_eq ⟨target, native.psz⟩ h.psz, bind_some']
+    have hwlt : r.width < U32B := by have := h.wsum_lt; omega
+    by_cases hwo : r.wo ≠ 0
+    · rw [if_pos hwo]
+      have hw : 0 < r.width := by rcases h.w_ok with h' | h' <;> omega
+      have hwol := h.wo_lt
+      generalize hpw : min (p.bx - r.wo) r.width = pw
+      have hpw' : 0 < pw ∧ pw ≤ r.width ∧ pw + r.wo ≤ p.bx := by subst hpw; omega
+      have hD := blocks_after_offset hbx h.wo_lt hw
+      rw [hpw] at hD
+      have hel' : enc.len - bpb = divCeil (r.width - pw) p.bx * bpb := by rw [h.enc_len, hD, succ_mul_sub]
+      have hbe : bpb ≤ enc.len := by rw [h.enc_len, hD, Nat.succ_mul]; omega
+      generalize hO : (Color.mk target native.psz).bpp = O at hOb
+      have hol := h.out_len
+      rw [hO, hH] at hol
+      generalize hN : native.bpp = N at hNb hfit hm0 hm1 hm2
+      have p1 : pw * (N * H) ≤ bufW * (N * H) := Nat.mul_le_mul_right _ (by omega)
+      have e1 : pw * N * H = pw * (N * H) := Nat.mul_assoc _ _ _
+      have p2 : pw * N ≤ pw * (N * H) := Nat.mul_le_mul_left _ (Nat.le_mul_of_pos_right _ hHb.1)
+      have p3 : pw * O ≤ r.width * O := Nat.mul_le_mul_right _ hpw'.2.1
+      have p4 : pw * O + (r.width - pw) * O = r.width * O := by rw [← Nat.add_mul]; congr 1; omega
+      have p5 : r.width * O ≤ r.width * 16 := Nat.mul_le_mul_left _ hOb.2
+      unfold U32B at hwlt
+      rw [subU_of_le (by omega), bind_some']
+      simp only [hpw]
+      rw [ckU_of_lt (by omega), bind_some', ckU_of_lt (by omega), bind_some',
+        Sl.upto_of (by rw [tmpBuffer_len]; omega), bind_some', Sl.upto_of hbe, bind_some']
+      have pre : BlkPre p.bx p.by_ bpb N ⟨enc.buf, enc.off, bpb⟩ ⟨tmpBuffer.buf, tmpBuffer.off, pw * N * H⟩ (pw * N)
+          ⟨pw, r.wo, r.rs, r.re⟩ :=
+        { bx_pos := hbx, bx_lt := hbxl, bpb_pos := hbpb, size_pos := by omega, wo_lt := h.wo_lt, w_ok := Or.inl hpw'.1,
+          wsum_lt := by show pw + r.wo < U32B; unfold U32B; omega,
+          enc_len := by show bpb = divCeil (pw + r.wo) p.bx * bpb
+                        rw [Addr.divCeil_le_one hbx (by omega) hpw'.2.2, Nat.one_mul],
+          rows := h.rows, re_le := h.re_le,
+          dec_len := by
+            show (r.re - r.rs - 1) * (pw * N) + pw * N ≤ pw * N * H
+            rw [hH, Nat.mul_comm (pw * N) H]
+            have : H = (H - 1) + 1 := by omega
+            conv => rhs; rw [this, Nat.succ_mul]
+            exact Nat.le_refl _,
+          dec_lt := by show pw * N * H < USIZE; omega }
+      obtain ⟨w1, hw1, q1⟩ := BlkFn.runT_spec al h.shape pre
+      rw [hw1, bind_some']
+      have hrows' := convBlockRowsT_spec (native := native) (target := target) h.psz (height := H) (rowPitch := rowPitch)
+        (cw := pw) (buf := ⟨tmpBuffer.buf, tmpBuffer.off, pw * N * H⟩) (out := out) hHb.1 (by omega)
+        (by simp only [hN]) (by simp only; omega) (by simp only [hO]; omega) h.out_lt
+      rw [hN, hO] at hrows'
+      obtain ⟨w2, hw2, q2⟩ := hrows'
+      have hmain := convBlocksMainT_spec (native := native) (target := target) (p := p) (bpb := bpb) al h.shape h.psz
+        (height := H) (bufW := bufW) (width := r.width - pw) (rowPitch := rowPitch) (r := r)
+        (enc := ⟨enc.buf, enc.off + bpb, enc.len - bpb⟩) (out := ⟨out.buf, out.off + pw * O, out.len - pw * O⟩)
+        h.rows h.re_le hH.symm hge (by rw [hN]; exact hfit) (by unfold U32B; omega) hel' (by simp only [hO]; omega)
+        (by have := h.out_lt; simp only; omega)
+      rw [hN, hO] at hmain
+      obtain ⟨e1', he1, q3⟩ := hmain
+      rw [hw2, bind_some', subU_of_le hpw'.2.1, bind_some', Sl.drop_of hbe, bind_some', ckU_of_lt (by omega), bind_some',
+        Sl.drop_of (by omega), bind_some', he1, bind_some', pure_some']
+      refine ⟨_, rfl, Quiet.append (Quiet.append (q1.mono fun s hs => Or.inl hs.1)
+        (q2.mono fun s hs => Or.inr (hs.mono p3))) (q3.mono fun s hs => ?_)⟩
+      rcases hs with hs | hs
+      · exact Or.inl hs
+      · exact Or.inr (hs.shift rfl rfl (by omega))
+    · rw [if_neg hwo]
+      have hwo0 : r.wo = 0 := by omega
+      have hel := h.enc_len
+      rw [hwo0, Nat.add_zero] at hel
+      have hol := h.out_len
+      rw [hH] at hol
+      exact convBlocksMainT_spec al h.shape h.psz h.rows h.re_le hH.symm hge hfit hwlt hel hol h.out_lt
 
 end Dds.TrapLoops
